@@ -1,6 +1,215 @@
 /-
-  C03 — property theorems (stub; to be filled in).
+  C03 — what Create stores is what queries load back: the conversion core (`field.Set` ∘ load ∘ store ∘
+  `field.ValueOf`), the primary-key back-fill after the INSERT and the `CreateInBatches` slicing.
 -/
+import GormModel.Model.Scan
+import GormModel.Lemmas.Scan
 namespace Gorm
+open Gorm.Scan
+
+/-- float32-exact patterns are never NaN -/
+private theorem f32exact_not_nan (b : Nat) (h : isF32Exact b = true) : isNaN b = false := by
+  unfold isF32Exact at h
+  unfold isNaN
+  generalize b / 2 ^ 52 % 2048 = e at *
+  generalize b % 2 ^ 52 = m at *
+  simp only [Bool.or_eq_true, Bool.and_eq_true, beq_iff_eq, decide_eq_true_eq] at h
+  rcases h with ⟨he, _⟩ | ⟨⟨h1, h2⟩, _⟩
+  · simp [he]
+  · have : e ≠ 2047 := by omega
+    simp [this]
+
+/-- ROUND TRIP, every field kind (bool; signed/unsigned 8–64; float32/64; string; []byte; time.Time; a pointer
+    to each; defined types over each), ALL representable values: the value `field.ValueOf` hands to the INSERT,
+    stored and loaded back through the pooled `**T` scan destination and `field.Set` into a FRESH struct, is the
+    original field value — in particular no arm truncates, re-signs, zeroes or nils a representable value. -/
+theorem C03_roundtrip_kind (k : FKind) (fv : FVal) (h : representable k fv = true) :
+    roundTrip k fv = .ok (.ok fv) := by
+  obtain ⟨base, ptr, named, tu⟩ := k
+  cases fv with
+  | none =>
+    cases ptr <;> cases named <;> cases base <;>
+      simp_all [representable, roundTrip, valueOf, store, load, setField, setPP, setPtr, hasPPArm,
+        FKind.zero, Base.zero, Base.ty]
+  | some v =>
+    cases base with
+    | bool =>
+      cases v <;> simp [representable, repVal] at h
+      rename_i b
+      cases ptr <;> cases named <;> cases b <;>
+        simp_all [roundTrip, valueOf, store, storeVal, load, setField, setPP, setPtr, setVal, hasPPArm, fallbackVal,
+          FKind.zero, Base.zero, Base.ty, Val.ty]
+    | int w =>
+      cases v <;> simp [representable, repVal] at h
+      rename_i t n
+      obtain ⟨⟨rfl, h1⟩, h2⟩ := h
+      have hw := wrapS_id w n h1 h2
+      have h64 : wrapS .w64 n = n := wrapS_id .w64 n (by have := half_le_half64 w; omega) (by have := half_le_half64 w; omega)
+      have hu : (sTy w).isUnsigned = false := by cases w <;> rfl
+      cases ptr <;> cases named <;> cases w <;>
+        simp_all [roundTrip, valueOf, store, storeVal, load, setField, setPP, setPtr, setVal, hasPPArm, fallbackVal,
+          FKind.zero, Base.zero, Base.ty, Val.ty, sTy]
+    | uint w =>
+      cases v <;> simp [representable, repVal] at h
+      rename_i t n
+      obtain ⟨⟨⟨rfl, h0⟩, h1⟩, h2⟩ := h
+      have hw := wrapU_id w n h0 h1
+      have h63 : ¬ (9223372036854775808 ≤ n) := by omega
+      have hu : (uTy w).isUnsigned = true := by cases w <;> rfl
+      have harm : ∀ tu, hasPPArm { base := .uint w, ptr := false, named := false, tu := tu } false (uTy w) = true := by
+        intro tu; cases w <;> rfl
+      have harm2 : ∀ p tu, hasPPArm { base := .uint w, ptr := p, named := false, tu := tu } true (uTy w) = false := by
+        intro p tu; rfl
+      have harm3 : ∀ n' tu, hasPPArm { base := .uint w, ptr := true, named := n', tu := tu } false (uTy w) = false := by
+        intro n' tu; cases n' <;> rfl
+      have harm4 : ∀ p n' tu, hasPPArm { base := .uint w, ptr := p, named := n', tu := tu } true (uTy w) = false := by
+        intro p n' tu; rfl
+      have hl : (0 ≤ n ∧ n < w.pow) := ⟨h0, h1⟩
+      clear h0 h1 h2
+      cases ptr <;> cases named <;>
+        simp [roundTrip, valueOf, store, storeVal, load, setField, setPP, setPtr, setVal, fallbackVal,
+          FKind.zero, Base.zero, Base.ty, Val.ty, hw, h63, hu, harm, harm2, harm3, harm4, hl]
+    | float is32 =>
+      cases is32 with
+      | true =>
+        cases v <;> simp [representable, repVal] at h
+        rename_i t b
+        obtain ⟨⟨rfl, hb⟩, hz⟩ := h
+        have hn := f32exact_not_nan b hb
+        cases ptr <;> cases named <;>
+          simp_all [roundTrip, valueOf, store, storeVal, load, setField, setPP, setPtr, setVal, hasPPArm, fallbackVal,
+            setFloat, FKind.zero, Base.zero, Base.ty, Val.ty]
+      | false =>
+        cases v <;> simp [representable, repVal] at h
+        rename_i t b
+        obtain ⟨⟨rfl, hb⟩, hz⟩ := h
+        cases ptr <;> cases named <;>
+          simp_all [roundTrip, valueOf, store, storeVal, load, setField, setPP, setPtr, setVal, hasPPArm, fallbackVal,
+            setFloat, FKind.zero, Base.zero, Base.ty, Val.ty]
+    | string =>
+      cases v <;> simp [representable, repVal] at h
+      cases ptr <;> cases named <;>
+        simp [roundTrip, valueOf, store, storeVal, load, setField, setPP, setPtr, setVal, hasPPArm, fallbackVal,
+          FKind.zero, Base.zero, Base.ty, Val.ty]
+    | bytes =>
+      cases v <;> simp [representable, repVal] at h
+      rename_i s
+      cases s <;> cases ptr <;> cases named <;>
+        simp_all [roundTrip, valueOf, store, storeVal, load, setField, setPP, setPtr, setVal, hasPPArm, fallbackVal,
+          FKind.zero, Base.zero, Base.ty, Val.ty]
+    | time =>
+      cases v <;> simp [representable, repVal] at h
+      cases ptr <;> cases named <;>
+        simp_all [roundTrip, valueOf, store, storeVal, load, setField, setPP, setPtr, setVal, hasPPArm, fallbackVal,
+          FKind.zero, Base.zero, Base.ty, Val.ty, convertTo]
+
+/-- what `SetInt`/`SetUint` leave in an N-bit field always fits N bits, whatever 64-bit value arrives, and is the
+    value itself whenever that fits (no arm can store an out-of-width integer) -/
+theorem C03_set_width (w : W) (x : Int) :
+    (-w.half ≤ wrapS w x ∧ wrapS w x < w.half) ∧ (0 ≤ wrapU w x ∧ wrapU w x < w.pow) ∧
+    (-w.half ≤ x → x < w.half → wrapS w x = x) ∧ (0 ≤ x → x < w.pow → wrapU w x = x) :=
+  ⟨wrapS_range w x, wrapU_range w x, wrapS_id w x, wrapU_id w x⟩
+
+/-- NULL into a fresh destination: every kind ends with its zero value (nil for pointers and []byte), whether
+    the arm keeps the field (`**T` nil ⇒ untouched) or zeroes it (fallbackSetter) -/
+theorem C03_null_fresh (k : FKind) : (load k .null).map (setField k k.zero) = .ok (.ok k.zero) := by
+  obtain ⟨base, ptr, named, tu⟩ := k
+  cases ptr <;> cases named <;> cases base <;>
+    simp [load, setField, setPP, setPtr, hasPPArm, FKind.zero, Base.zero, Base.ty, Except.map]
+
+/-- BACK-FILL WITH RETURNING: for every table state, every slice (any mix of zero and preset keys), every batch
+    size > 0, `CreateInBatches` leaves in element i exactly the key of the i-th inserted row, and batching does
+    not change which rows are written. -/
+theorem C03_backfill_returning (m : Int) (ks : List Key) (b : Nat) (hb : 0 < b) :
+    (createInBatches true m ks b).1 = (createInBatches true m ks b).2.1 ∧
+    (createInBatches true m ks b).2.1 = (dbInsert m ks).1 := by
+  unfold createInBatches
+  have hf : (batchSlices ks b).flatten = ks := by
+    have := batchBounds_flatten ks b hb ks.length 0 (by omega)
+    simpa [batchSlices] using this
+  have := createBatchesAux_spec true (batchSlices ks b) m (fun s _ m' _ => (createSlice_returning m' s).1)
+  rw [hf] at this
+  rw [this.1, this.2]
+  exact ⟨rfl, rfl⟩
+
+/-- … element-wise form of the RETURNING scan (scan.go `ScanUpdate`): row j goes to element j -/
+theorem C03_returning_row_to_element (ks rows : List Key) (i : Nat) (h : i < rows.length) (h2 : i < ks.length) :
+    (scanUpdate ks rows)[i]? = rows[i]? := scanUpdate_get ks rows i h h2
+
+/-- BACK-FILL FROM LastInsertId (no RETURNING, SQLite-like reversed loop): the same conclusion provided the
+    batch does NOT mix zero-key and preset-key elements (negation of finding F9's pattern), the table's ids are
+    positive and the database assigns consecutive ids. -/
+theorem C03_backfill_lastid_partial (m : Int) (hm : 0 ≤ m) (ks : List Key) (b : Nat) (hb : 0 < b)
+    (hmix : ¬ Mixed ks) :
+    (createInBatches false m ks b).1 = (createInBatches false m ks b).2.1 ∧
+    (createInBatches false m ks b).2.1 = (dbInsert m ks).1 := by
+  unfold createInBatches
+  have hf : (batchSlices ks b).flatten = ks := by
+    have := batchBounds_flatten ks b hb ks.length 0 (by omega)
+    simpa [batchSlices] using this
+  have hsub : ∀ s ∈ batchSlices ks b, ∀ x ∈ s, x ∈ ks := by
+    intro s hs x hx
+    rw [← hf]
+    exact List.mem_flatten.mpr ⟨s, hs, hx⟩
+  have hslice : ∀ s ∈ batchSlices ks b, AllZero s ∨ AllPreset s := by
+    intro s hs
+    rcases not_mixed ks hmix with hz | hp
+    · exact Or.inl (fun x hx => hz x (hsub s hs x hx))
+    · exact Or.inr (fun x hx => hp x (hsub s hs x hx))
+  have := createBatchesAux_spec false (batchSlices ks b) m
+    (fun s hs m' hm' => (createSlice_lastid m' s (Int.le_trans hm hm') (hslice s hs)).1)
+  rw [hf] at this
+  rw [this.1, this.2]
+  exact ⟨rfl, rfl⟩
+
+/-- FINDING F9 (kernel-checked witness): no RETURNING, empty table, `Create(&[]U{{}, {ID:100}, {}})`: rows get
+    ids 1,100,101 but the records in memory end up with 100,100,101 — record 0 carries the key of record 1's row. -/
+theorem C03_backfill_mixed_counterexample :
+    createSlice false 0 [0, 100, 0] = ([100, 100, 101], [1, 100, 101], 101) ∧ Mixed [0, 100, 0] := by
+  decide
+
+/-- CREATE FROM A SLICE OF MAPS, no RETURNING: every map receives the key of its own row (rows get m+1 … m+n) and
+    the caller's slice keeps its length — the negation of finding F18's pattern (RETURNING-capable dialector) -/
+theorem C03_maps_backfill_partial (returning ptrDest : Bool) (m : Int) (n : Nat) (h : returning = false) :
+    createMaps returning ptrDest m n = some ((up (m + 1) n).map some, n) := by
+  subst h
+  simp only [createMaps, backfillMaps, Bool.false_eq_true, if_false, if_true, List.length_replicate]
+  rw [backfillMaps_go_present]
+  have e : m + (n : Int) - ((n : Int) - 1) = m + 1 := by omega
+  rw [e]
+
+/-- FINDING F18 (kernel-checked witness): with RETURNING, `Create(&[]map{…}{{…},{…}})` leaves both maps without
+    a key and the caller's slice with 4 elements; by value the call fails -/
+theorem C03_maps_returning_counterexample :
+    createMaps true true 0 2 = some ([none, none], 4) ∧ createMaps true false 0 2 = none := by
+  decide
+
+/-- dialects whose LastInsertId is the FIRST generated id (forward loop, create.go:170): all-zero batches -/
+theorem C03_backfill_forward (m : Int) (ks : List Key) (hz : AllZero ks) :
+    backfillFwd 1 ks (m + 1) = (dbInsert m ks).1 := by
+  rw [backfillFwd_zero _ _ hz, dbInsert_zero _ _ hz]
+
+/-- `CreateInBatches` slices: concatenated in order they are the input, none is empty, none exceeds the batch
+    size — for every slice and every batch size > 0 (nothing dropped, duplicated or reordered; the last partial
+    batch included). -/
+theorem C03_batches_partition {α : Type} (l : List α) (b : Nat) (hb : 0 < b) :
+    (batchSlices l b).flatten = l ∧ ∀ s ∈ batchSlices l b, 0 < s.length ∧ s.length ≤ b := by
+  constructor
+  · have := batchBounds_flatten l b hb l.length 0 (by omega)
+    simpa [batchSlices] using this
+  · intro s hs
+    simp only [batchSlices, List.mem_map] at hs
+    obtain ⟨p, hp, rfl⟩ := hs
+    have := batchBounds_sizes l.length b hb l.length 0 p hp
+    simp only [List.length_take, List.length_drop]
+    omega
+
+/-- non-vacuity: representable values exist at the boundaries; the partial theorem's hypothesis is satisfiable
+    by non-trivial batches -/
+example : representable { base := .int .w8 } (some (.int .i8 (-128))) = true := by decide
+example : representable { base := .uint .w64, ptr := true } (some (.int .u64 9223372036854775807)) = true := by decide
+example : ¬ Mixed [0, 0, 0] ∧ ¬ Mixed [7, 9] := by decide
+/-- and out-of-width values are really changed by the setter (the hypothesis is needed) -/
+example : setField { base := .int .w8 } none (.val false (.int .i64 300)) = .ok (some (.int .i8 44)) := by rfl
 
 end Gorm
